@@ -174,7 +174,7 @@ def explore(ctx, scale=1):
 def run(ctx):
     ctx.rule = ("captures with ≥ 2 sessions (TLS + QUIC, QUIC CIDs of length 0/3/8 so that CID sets hold several entries) run as "
                 "CLI processes under PYTHONHASHSEED ∈ {0, 1..7 (first capture; all in thorough), 2 random}, three working "
-                "directories, a polluted environment, and in one interpreter as run();run() on (A, A), (B, A) and (B aborted by an unwritable output path, B aborted by a missing key log, A); some QUIC connections use a server CID that extends the client's original DCID. One "
+                "directories, a polluted environment, and in one interpreter as run();run() on (A, A), (B, A) and (B aborted by an unwritable output path, B aborted by a missing key log, A) and (A, A without -s: the secrets of the earlier run must not leak); the command without -s under SSLKEYLOGFILE pointing to the matching key log / to a missing file must equal the one in a clean environment; one QUIC connection per capture issues a new CID with Retire Prior To = 1 while the peer still sends two datagrams with the old one; some QUIC connections use a server CID that extends the client's original DCID. One "
                 "evaluation = one run; non-trivial iff the capture has ≥ 2 QUIC CIDs or ≥ 2 sessions and a non-empty output.")
     ctx.assumptions = ["the CLI is started with `python -m tlexport.main` from the tree under test"]
     import m1_mainloop
